@@ -492,5 +492,638 @@ theorem process_rate1 (fuel : Nat) (hfuel : 2 ≤ fuel) (s : StaticSound ℝ) (r
   exact renderLoop_rate1 fuel hfuel dt len len 0 s h.gain
     (fun t => by rw [fracStep_rests s r t dt h.rate, hunit]) h.frac
 
+/-! ### what is heard: the frames pushed into the window, in order -/
+
+/-- the frame `push_frame_to_resampler` appends in state `s` (zero if it faults) -/
+noncomputable def pushedFrame (s : StaticSound ℝ) : Frame ℝ :=
+  match s.pushFrameToResampler with
+  | .ok s1 => s1.resampler.f3.frame
+  | .error _ => Frame.zero
+
+/-- the `j`-th frame a listener hears from state `s` on (at rate ±1): the three frames already in
+    the window, then whatever is pushed in the following states -/
+noncomputable def heardAt (s : StaticSound ℝ) : Nat → Frame ℝ
+  | 0 => s.resampler.f1.frame
+  | 1 => s.resampler.f2.frame
+  | 2 => s.resampler.f3.frame
+  | j + 3 => match updN j s with
+    | .ok sj => pushedFrame sj
+    | .error _ => Frame.zero
+
+theorem updatePosition_window (s s' : StaticSound ℝ) (h : s.updatePosition = .ok s') :
+    s'.resampler.f0 = s.resampler.f1 ∧ s'.resampler.f1 = s.resampler.f2 ∧ s'.resampler.f2 = s.resampler.f3
+      ∧ s'.resampler.f3.frame = pushedFrame s := by
+  unfold updatePosition at h
+  unfold pushedFrame
+  cases h1 : s.pushFrameToResampler with
+  | error f => simp [h1] at h
+  | ok s1 =>
+    obtain ⟨fo, rfl⟩ := pushFrame_shape s s1 h1
+    simp only [h1] at h
+    cases h2 : moveTransport { s with resampler := s.resampler.pushFrame fo s.transport.position } with
+    | error f => simp [h2] at h
+    | ok t =>
+      simp only [h2] at h
+      split at h <;> (injection h with h; subst h; exact ⟨rfl, rfl, rfl, rfl⟩)
+
+theorem heardAt_step (s s' : StaticSound ℝ) (h : s.updatePosition = .ok s') (j : Nat) :
+    heardAt s' j = heardAt s (j + 1) := by
+  obtain ⟨_, w1, w2, w3⟩ := updatePosition_window s s' h
+  match j with
+  | 0 => simp [heardAt, w1]
+  | 1 => simp [heardAt, w2]
+  | 2 => simp [heardAt, w3, updN]
+  | j + 3 =>
+    show (match updN j s' with | .ok sj => pushedFrame sj | .error _ => Frame.zero)
+      = (match updN (j + 1) s with | .ok sj => pushedFrame sj | .error _ => Frame.zero)
+    rw [updN_succ, h]
+
+/-- `walkOut` emits `heardAt s 0, heardAt s 1, …` -/
+theorem walkOut_heard : ∀ (k : Nat) (s s' : StaticSound ℝ) (outs : List (Frame ℝ)),
+    walkOut k s = .ok (s', outs) →
+      updN k s = .ok s' ∧ outs.length = k ∧ ∀ j, j < k → outs[j]? = some (heardAt s j) := by
+  intro k
+  induction k with
+  | zero =>
+    intro s s' outs h
+    simp only [walkOut] at h
+    injection h with h; injection h with h1 h2
+    subst h1 h2
+    exact ⟨rfl, rfl, fun j hj => by omega⟩
+  | succ k ih =>
+    intro s s' outs h
+    rw [walkOut_succ] at h
+    cases hu : s.updatePosition with
+    | error f => simp [hu] at h
+    | ok s1 =>
+      simp only [hu] at h
+      cases hw : walkOut k s1 with
+      | error f => simp [hw] at h
+      | ok r =>
+        obtain ⟨s2, outs'⟩ := r
+        simp only [hw] at h
+        injection h with h; injection h with h1 h2
+        subst h1 h2
+        obtain ⟨a, b, c⟩ := ih s1 s2 outs' hw
+        refine ⟨by rw [updN_succ, hu]; exact a, by simp [b], ?_⟩
+        intro j hj
+        match j with
+        | 0 => simp [heardAt]
+        | j + 1 =>
+          simp only [List.getElem?_cons_succ]
+          rw [c j (by omega), heardAt_step s s1 hu]
+
+/-- a freshly primed sound (three position steps from `init`) makes audible exactly the frames
+    pushed from the initial transport position on — no latency -/
+theorem heardAt_primed (s0 s : StaticSound ℝ) (h : updN 3 s0 = .ok s) (j : Nat) :
+    heardAt s j = (match updN j s0 with | .ok sj => pushedFrame sj | .error _ => Frame.zero) := by
+  have h3 : updN 3 s0 = (match s0.updatePosition with
+      | .error f => .error f
+      | .ok a => (match a.updatePosition with
+        | .error f => .error f
+        | .ok b => (match b.updatePosition with
+          | .error f => .error f
+          | .ok c => .ok c))) := by
+    rw [updN_succ]
+    cases s0.updatePosition with
+    | error f => rfl
+    | ok a =>
+      simp only []
+      rw [updN_succ]
+      cases a.updatePosition with
+      | error f => rfl
+      | ok b =>
+        simp only []
+        rw [updN_succ]
+        cases b.updatePosition with
+        | error f => rfl
+        | ok c => rfl
+  rw [h3] at h
+  cases ha : s0.updatePosition with
+  | error f => simp [ha] at h
+  | ok a =>
+    simp only [ha] at h
+    cases hb : a.updatePosition with
+    | error f => simp [hb] at h
+    | ok b =>
+      simp only [hb] at h
+      cases hc : b.updatePosition with
+      | error f => simp [hc] at h
+      | ok c =>
+        simp only [hc] at h
+        injection h with h; subst h
+        rw [heardAt_step b c hc, heardAt_step a b hb, heardAt_step s0 a ha]
+        show (match updN j s0 with | .ok sj => pushedFrame sj | .error _ => Frame.zero) = _
+        rfl
+
+theorem heardAt_updN : ∀ (k : Nat) (s s' : StaticSound ℝ), updN k s = .ok s' → ∀ j, heardAt s' j = heardAt s (j + k) := by
+  intro k
+  induction k with
+  | zero => intro s s' h j; injection h with h; subst h; rfl
+  | succ k ih =>
+    intro s s' h j
+    rw [updN_succ] at h
+    cases hu : s.updatePosition with
+    | error f => simp [hu] at h
+    | ok s1 =>
+      simp only [hu] at h
+      rw [ih s1 s' h j, heardAt_step s s1 hu]
+      congr 1
+
+/-! ### the window holds zeros once it has drained -/
+
+/-- the last `4 − time_until_empty` pushes were "no frame": those slots hold zeros -/
+structure ResDrained (r : Resampler ℝ) : Prop where
+  le4 : r.timeUntilEmpty ≤ 4
+  s3 : r.timeUntilEmpty ≤ 3 → r.f3.frame = Frame.zero
+  s2 : r.timeUntilEmpty ≤ 2 → r.f2.frame = Frame.zero
+  s1 : r.timeUntilEmpty ≤ 1 → r.f1.frame = Frame.zero
+  s0 : r.timeUntilEmpty = 0 → r.f0.frame = Frame.zero
+
+theorem new_drained (i : Nat) : ResDrained (Resampler.new i : Resampler ℝ) := by
+  constructor <;> simp [Resampler.new]
+
+theorem pushFrame_drained (r : Resampler ℝ) (h : ResDrained r) (fo : Option (Frame ℝ)) (i : Nat) :
+    ResDrained (r.pushFrame fo i) := by
+  cases fo with
+  | some f => constructor <;> simp [Resampler.pushFrame]
+  | none =>
+    have := h.le4
+    constructor
+    · simp [Resampler.pushFrame]; omega
+    · intro _; simp [Resampler.pushFrame]
+    · intro hh; simp only [Resampler.pushFrame] at hh ⊢; exact h.s3 (by omega)
+    · intro hh; simp only [Resampler.pushFrame] at hh ⊢; exact h.s2 (by omega)
+    · intro hh; simp only [Resampler.pushFrame] at hh ⊢; exact h.s1 (by omega)
+
+/-- life-cycle invariant of a sound that is only ever stopped by its natural end -/
+structure EndInv (s : StaticSound ℝ) : Prop where
+  drained : ResDrained s.resampler
+  state : s.core.psm.state = .playing ∨ s.core.psm.state = .stopped
+  dead : s.core.psm.state = .stopped → s.transport.playing = false ∧ s.resampler.timeUntilEmpty = 0
+
+theorem moveTransport_stopped (s : StaticSound ℝ) (t : Transport) (hp : s.transport.playing = false)
+    (h : s.moveTransport = .ok t) : t = s.transport := by
+  unfold moveTransport at h
+  split at h
+  · rw [Transport.decrement_stopped _ hp] at h; injection h with h; exact h.symm
+  · cases hn : numFrames s.frames.size s.slice with
+    | error f => simp [hn] at h
+    | ok n => simp only [hn] at h; rw [Transport.increment_stopped _ _ hp] at h; injection h with h; exact h.symm
+
+theorem updatePosition_endInv (s s' : StaticSound ℝ) (hi : s.EndInv) (h : s.updatePosition = .ok s') : s'.EndInv := by
+  unfold updatePosition at h
+  cases h1 : s.pushFrameToResampler with
+  | error f => simp [h1] at h
+  | ok s1 =>
+    obtain ⟨fo, rfl⟩ := pushFrame_shape s s1 h1
+    simp only [h1] at h
+    cases h2 : moveTransport { s with resampler := s.resampler.pushFrame fo s.transport.position } with
+    | error f => simp [h2] at h
+    | ok t =>
+      simp only [h2] at h
+      have hd := pushFrame_drained s.resampler hi.drained fo s.transport.position
+      by_cases hc : (!t.playing && (s.resampler.pushFrame fo s.transport.position).empty) = true
+      · have hc' := hc
+        simp only [Bool.and_eq_true, Bool.not_eq_true', Resampler.empty, beq_iff_eq] at hc'
+        simp only [hc, if_true] at h
+        injection h with h; subst h
+        exact ⟨hd, Or.inr rfl, fun _ => ⟨hc'.1, hc'.2⟩⟩
+      · simp only [hc] at h
+        injection h with h; subst h
+        refine ⟨hd, hi.state, fun hst => ?_⟩
+        -- already stopped before: nothing was playing, the push was "no frame", so the test above holds
+        exfalso
+        obtain ⟨hp, he⟩ := hi.dead hst
+        have hfo : fo = none := by
+          unfold pushFrameToResampler at h1
+          simp only [hp] at h1
+          injection h1 with h1
+          have : (s.resampler.pushFrame none s.transport.position) = (s.resampler.pushFrame fo s.transport.position) := by
+            have := congrArg StaticSound.resampler h1; simpa using this
+          cases fo with
+          | none => rfl
+          | some f => have := congrArg Resampler.timeUntilEmpty this; simp [Resampler.pushFrame, he] at this
+        have ht := moveTransport_stopped _ t (by simpa using hp) h2
+        apply hc
+        simp [ht, hp, hfo, Resampler.pushFrame, Resampler.empty, he]
+
+theorem updN_endInv : ∀ (k : Nat) (s s' : StaticSound ℝ), s.EndInv → updN k s = .ok s' → s'.EndInv := by
+  intro k
+  induction k with
+  | zero => intro s s' hi h; injection h with h; subst h; exact hi
+  | succ k ih =>
+    intro s s' hi h
+    rw [updN_succ] at h
+    cases hu : s.updatePosition with
+    | error f => simp [hu] at h
+    | ok s1 => simp only [hu] at h; exact ih s1 s' (updatePosition_endInv s s1 hi hu) h
+
+/-- a drained, ended sound: silence for ever -/
+theorem heardAt_dead (s : StaticSound ℝ) (hi : s.EndInv) (hp : s.transport.playing = false)
+    (he : s.resampler.timeUntilEmpty = 0) : ∀ j, heardAt s j = Frame.zero := by
+  have hstay : ∀ (k : Nat) (a b : StaticSound ℝ), a.transport.playing = false → updN k a = .ok b →
+      b.transport.playing = false := by
+    intro k
+    induction k with
+    | zero => intro a b ha h; injection h with h; subst h; exact ha
+    | succ k ih =>
+      intro a b ha h
+      rw [updN_succ] at h
+      cases hu : a.updatePosition with
+      | error f => simp [hu] at h
+      | ok a1 =>
+        simp only [hu] at h
+        refine ih a1 b ?_ h
+        unfold updatePosition at hu
+        cases h1 : a.pushFrameToResampler with
+        | error f => simp [h1] at hu
+        | ok a2 =>
+          obtain ⟨fo, rfl⟩ := pushFrame_shape a a2 h1
+          simp only [h1] at hu
+          cases h2 : moveTransport { a with resampler := a.resampler.pushFrame fo a.transport.position } with
+          | error f => simp [h2] at hu
+          | ok t =>
+            simp only [h2] at hu
+            have ht := moveTransport_stopped _ t (by simpa using ha) h2
+            split at hu <;> (injection hu with hu; subst hu; simp [ht, ha])
+  intro j
+  match j with
+  | 0 => exact hi.drained.s1 (by omega)
+  | 1 => exact hi.drained.s2 (by omega)
+  | 2 => exact hi.drained.s3 (by omega)
+  | j + 3 =>
+    show (match updN j s with | .ok sj => pushedFrame sj | .error _ => Frame.zero) = Frame.zero
+    cases hu : updN j s with
+    | error f => rfl
+    | ok sj =>
+      have := hstay j s sj hp hu
+      simp only [pushedFrame, pushFrameToResampler, this]
+      simp [Resampler.pushFrame]
+
+/-! ### any chunk partition at rate ±1 -/
+
+/-- a sequence of `process` calls with the given buffer lengths -/
+def chunkOps (dt : ℝ) (info : Info ℝ) (lens : List Nat) : List (Op ℝ) := lens.map (fun L => .process L dt info)
+
+theorem gate_stopped (c : SoundCore ℝ) (dtc : ℝ) (info : Info ℝ) (hf : c.psm.fade.Rests 0)
+    (hs : c.psm.state = .stopped) (hst : c.startTime = .immediate) : c.gate dtc info = (c, false) := by
+  obtain ⟨psm, st, sh⟩ := c
+  obtain ⟨state, fade⟩ := psm
+  simp only at hf hs hst
+  subst hs hst
+  unfold SoundCore.gate Psm.update
+  simp only [(hf.update tw32 dtc info).1, StartTime.update]
+  simp [StartTime.isImmediate, Psm.playbackState, PlaybackState.isAdvancing]
+
+theorem process_stopped (fuel : Nat) (s : StaticSound ℝ) (r dt : ℝ) (len : Nat) (info : Info ℝ)
+    (hg : s.NeutralGain) (hr : s.playbackRate.Rests r) (hs : s.core.psm.state = .stopped)
+    (hst : s.core.startTime = .immediate) :
+    s.process fuel len dt info = .ok (s, List.replicate len Frame.zero) := by
+  unfold process
+  have hgate := gate_stopped s.core (dt * KOps.ofNat len) info hg.2.2 hs hst
+  have hv := (hg.1.update tw32 (dt * KOps.ofNat len) info).1
+  have hp := (hg.2.1.update tw32 (dt * KOps.ofNat len) info).1
+  have hr' := (hr.update tw64 (dt * KOps.ofNat len) info).1
+  simp only [hgate, hv, hp, hr']
+  simp
+
+theorem run_cons (fuel : Nat) (s : StaticSound ℝ) (op : Op ℝ) (ops : List (Op ℝ)) :
+    s.run fuel (op :: ops) = (match s.step fuel op with
+      | .error f => .error f
+      | .ok r => (match run fuel r.1 ops with
+        | .error f => .error f
+        | .ok r' => .ok (r'.1, r.2 ++ r'.2))) := by
+  rw [run]
+  cases s.step fuel op with
+  | error f => rfl
+  | ok r =>
+    obtain ⟨a, b⟩ := r
+    simp only []
+    cases run fuel a ops with
+    | error f => rfl
+    | ok r' => rfl
+
+/-- **rate ±1, device rate = sound rate, any partition into buffers**: the `j`-th frame written is
+    `heardAt s j` — the window content, then the frames pushed at the following transport
+    positions; after the natural end exact zeros. -/
+theorem rate1_run (fuel : Nat) (hfuel : 2 ≤ fuel) (r dt : ℝ) (info : Info ℝ) :
+    ∀ (lens : List Nat) (s s' : StaticSound ℝ) (outs : List (Frame ℝ)),
+      s.NeutralGain → s.playbackRate.Rests r → s.core.startTime = .immediate → s.frac = 0 → s.EndInv →
+      (s.sampleRate : ℝ) * |r| * dt = 1 →
+      s.run fuel (chunkOps dt info lens) = .ok (s', outs) →
+      outs.length = lens.sum ∧ ∀ j, j < lens.sum → outs[j]? = some (heardAt s j) := by
+  intro lens
+  induction lens with
+  | nil =>
+    intro s s' outs _ _ _ _ _ _ h
+    simp only [chunkOps, List.map_nil, run] at h
+    injection h with h; injection h with h1 h2; subst h2
+    exact ⟨rfl, fun j hj => by simp at hj⟩
+  | cons L lens ih =>
+    intro s s' outs hg hr hst hfr hi hunit h
+    simp only [chunkOps, List.map_cons] at h
+    rw [run_cons] at h
+    simp only [step] at h
+    -- the first buffer
+    have key : ∃ s1 o1, s.process fuel L dt info = .ok (s1, o1) ∧ o1.length = L
+        ∧ (∀ j, j < L → o1[j]? = some (heardAt s j))
+        ∧ (∀ j, heardAt s1 j = heardAt s (j + L))
+        ∧ s1.NeutralGain ∧ s1.playbackRate.Rests r ∧ s1.core.startTime = .immediate ∧ s1.frac = 0 ∧ s1.EndInv
+        ∧ s1.sampleRate = s.sampleRate := by
+      rcases hi.state with hpl | hstop
+      · rw [process_rate1 fuel hfuel s r dt L info ⟨hg, hr, hpl, hst, hfr⟩ hunit] at h ⊢
+        cases hw : walkOut L s with
+        | error f => simp [hw] at h
+        | ok r1 =>
+          obtain ⟨s1, o1⟩ := r1
+          obtain ⟨hu, hl, hh⟩ := walkOut_heard L s s1 o1 hw
+          have hsc := updN_sameConfig L s s1 hu
+          refine ⟨s1, o1, rfl, hl, hh, heardAt_updN L s s1 hu, neutralGain_sameConfig hsc hg, ?_, ?_, ?_,
+            updN_endInv L s s1 hi hu, hsc.sampleRate⟩
+          · rw [hsc.playbackRate]; exact hr
+          · rw [hsc.startTime]; exact hst
+          · rw [hsc.frac]; exact hfr
+      · obtain ⟨hp, he⟩ := hi.dead hstop
+        have hz := heardAt_dead s hi hp he
+        refine ⟨s, List.replicate L Frame.zero, process_stopped fuel s r dt L info hg hr hstop hst, by simp, ?_,
+          fun j => by rw [hz j, hz (j + L)], hg, hr, hst, hfr, hi, rfl⟩
+        intro j hj
+        rw [hz j]; simp [hj]
+    obtain ⟨s1, o1, hp1, hl1, hh1, hshift, hg1, hr1, hst1, hfr1, hi1, hsr1⟩ := key
+    rw [hp1] at h
+    simp only [] at h
+    cases hrest : run fuel s1 (chunkOps dt info lens) with
+    | error f => simp [chunkOps] at hrest; simp [hrest] at h
+    | ok r2 =>
+      obtain ⟨s2, o2⟩ := r2
+      have hrest' := hrest
+      simp only [chunkOps] at hrest'
+      simp only [hrest'] at h
+      injection h with h; injection h with h1 h2; subst h1 h2
+      obtain ⟨hl2, hh2⟩ := ih s1 s2 o2 hg1 hr1 hst1 hfr1 hi1 (by rw [hsr1]; exact hunit) hrest
+      refine ⟨by simp [hl1, hl2], ?_⟩
+      intro j hj
+      by_cases hjL : j < L
+      · rw [List.getElem?_append_left (by omega)]; exact hh1 j hjL
+      · rw [List.getElem?_append_right (by omega), hl1, hh2 (j - L) (by simp at hj; omega), hshift]
+        congr 2; omega
+
+/-! ### what is pushed: the source frame under the play head -/
+
+/-- the slice lies inside the data -/
+def SliceOk (s : StaticSound ℝ) : Prop :=
+  match s.slice with
+  | some (a, b) => a ≤ b ∧ b ≤ s.frames.size
+  | none => True
+
+/-- `num_frames` of the sound (frames of the slice) -/
+def nFrames (s : StaticSound ℝ) : Nat :=
+  match s.slice with
+  | some (a, b) => b - a
+  | none => s.frames.size
+
+/-- first frame of the slice in the data -/
+def sliceStart (s : StaticSound ℝ) : Nat :=
+  match s.slice with
+  | some (a, _) => a
+  | none => 0
+
+theorem numFrames_ok (s : StaticSound ℝ) (h : s.SliceOk) : numFrames s.frames.size s.slice = .ok s.nFrames := by
+  unfold numFrames nFrames SliceOk at *
+  cases hs : s.slice with
+  | none => rfl
+  | some ab => obtain ⟨a, b⟩ := ab; simp only [hs] at h; simp [h.1]
+
+/-- **never outside the slice**: a lookup never faults, returns a frame only for an index inside
+    the slice, and that frame is the data frame at `slice start + index`, which lies in
+    `[slice start, slice end)`. -/
+theorem frameAtIndex_ok (s : StaticSound ℝ) (h : s.SliceOk) (i : Nat) :
+    (i < s.nFrames → ∃ f, frameAtIndex i s.frames s.slice = .ok (some f) ∧ s.frames[i + s.sliceStart]? = some f
+        ∧ i + s.sliceStart < s.frames.size)
+    ∧ (s.nFrames ≤ i → frameAtIndex i s.frames s.slice = .ok none) := by
+  unfold frameAtIndex
+  rw [numFrames_ok s h]
+  unfold nFrames sliceStart SliceOk at *
+  cases hs : s.slice with
+  | none =>
+    simp only [hs] at h ⊢
+    constructor
+    · intro hi
+      have hnot : ¬ s.frames.size ≤ i := by omega
+      simp only [hnot, if_false]
+      exact ⟨s.frames[i], by simp [hi], by simp [hi], by omega⟩
+    · intro hi; simp [hi]
+  | some ab =>
+    obtain ⟨a, b⟩ := ab
+    simp only [hs] at h ⊢
+    constructor
+    · intro hi
+      have hnot : ¬ b - a ≤ i := by omega
+      have hlt : i + a < s.frames.size := by omega
+      simp only [hnot, if_false]
+      exact ⟨s.frames[i + a], by simp [hlt], by simp [hlt], hlt⟩
+    · intro hi; simp [hi]
+
+/-- the source frame under the play head `t` (zero once the transport has ended or when the index
+    is not inside the sound) -/
+noncomputable def sourceAt (s : StaticSound ℝ) (t : Transport) : Frame ℝ :=
+  if t.playing ∧ t.position < s.nFrames then (s.frames[t.position + s.sliceStart]?).getD Frame.zero
+  else Frame.zero
+
+theorem pushedFrame_eq (s : StaticSound ℝ) (h : s.SliceOk) : pushedFrame s = sourceAt s s.transport := by
+  unfold pushedFrame pushFrameToResampler sourceAt
+  by_cases hp : s.transport.playing = true
+  · simp only [hp, if_true, true_and]
+    by_cases hi : s.transport.position < s.nFrames
+    · obtain ⟨f, hf, hg, _⟩ := (frameAtIndex_ok s h s.transport.position).1 hi
+      simp [hf, hi, hg, Resampler.pushFrame]
+    · have := (frameAtIndex_ok s h s.transport.position).2 (by omega)
+      simp [this, hi, Resampler.pushFrame]
+  · simp [hp, Resampler.pushFrame]
+
+/-- one step of the play head in the sound's direction of travel -/
+def stepDir (bw : Bool) (n : Nat) (t : Transport) : Except Fault Transport :=
+  if bw then t.decrement else t.increment n
+
+/-- `k` steps of the play head -/
+def walk (bw : Bool) (n : Nat) : Nat → Transport → Except Fault Transport
+  | 0, t => .ok t
+  | k + 1, t => match stepDir bw n t with
+    | .error f => .error f
+    | .ok t' => walk bw n k t'
+
+theorem updatePosition_transport (s s' : StaticSound ℝ) (hok : s.SliceOk) (h : s.updatePosition = .ok s') :
+    stepDir s.isPlayingBackwards s.nFrames s.transport = .ok s'.transport := by
+  unfold updatePosition at h
+  cases h1 : s.pushFrameToResampler with
+  | error f => simp [h1] at h
+  | ok s1 =>
+    obtain ⟨fo, rfl⟩ := pushFrame_shape s s1 h1
+    simp only [h1] at h
+    have hm : moveTransport { s with resampler := s.resampler.pushFrame fo s.transport.position }
+        = stepDir s.isPlayingBackwards s.nFrames s.transport := by
+      unfold moveTransport stepDir
+      have : isPlayingBackwards { s with resampler := s.resampler.pushFrame fo s.transport.position }
+          = s.isPlayingBackwards := rfl
+      rw [this]
+      simp only [numFrames_ok s hok]
+    rw [hm] at h
+    cases h2 : stepDir s.isPlayingBackwards s.nFrames s.transport with
+    | error f => simp [h2] at h
+    | ok t =>
+      simp only [h2] at h
+      split at h <;> (injection h with h; subst h; rfl)
+
+theorem updN_transport : ∀ (k : Nat) (s s' : StaticSound ℝ), s.SliceOk → updN k s = .ok s' →
+    walk s.isPlayingBackwards s.nFrames k s.transport = .ok s'.transport := by
+  intro k
+  induction k with
+  | zero => intro s s' _ h; injection h with h; subst h; rfl
+  | succ k ih =>
+    intro s s' hok h
+    rw [updN_succ] at h
+    cases hu : s.updatePosition with
+    | error f => simp [hu] at h
+    | ok s1 =>
+      simp only [hu] at h
+      have hsc := updatePosition_sameConfig s s1 hu
+      have hok1 : s1.SliceOk := by unfold SliceOk; rw [hsc.slice, hsc.frames]; exact hok
+      have hbw : s1.isPlayingBackwards = s.isPlayingBackwards := by
+        unfold isPlayingBackwards; rw [hsc.playbackRate, hsc.reverse]
+      have hn : s1.nFrames = s.nFrames := by unfold nFrames; rw [hsc.slice, hsc.frames]
+      have := ih s1 s' hok1 h
+      rw [hbw, hn] at this
+      rw [walk, updatePosition_transport s s1 hok hu]
+      exact this
+
+/-! ### in-domain sounds never fault -/
+
+/-- slice inside the data and a valid (or no) loop region -/
+def InDomain (s : StaticSound ℝ) : Prop := s.SliceOk ∧ s.transport.ValidLoop s.nFrames
+
+theorem stepDir_total (bw : Bool) (n : Nat) (t : Transport) (hv : t.ValidLoop n) :
+    ∃ t', stepDir bw n t = .ok t' ∧ t'.ValidLoop n := by
+  unfold stepDir
+  cases bw with
+  | true =>
+    obtain ⟨t', h1, h2⟩ := Transport.decrement_total t n hv
+    exact ⟨t', by simpa using h1, by unfold Transport.ValidLoop; rw [h2]; exact hv⟩
+  | false =>
+    obtain ⟨t', h1, h2⟩ := Transport.increment_total t n hv
+    exact ⟨t', by simpa using h1, by unfold Transport.ValidLoop; rw [h2]; exact hv⟩
+
+theorem pushFrame_total (s : StaticSound ℝ) (h : s.SliceOk) : ∃ s1, s.pushFrameToResampler = .ok s1 := by
+  unfold pushFrameToResampler
+  by_cases hp : s.transport.playing = true
+  · simp only [hp, if_true]
+    by_cases hi : s.transport.position < s.nFrames
+    · obtain ⟨f, hf, _, _⟩ := (frameAtIndex_ok s h s.transport.position).1 hi
+      simp [hf]
+    · have := (frameAtIndex_ok s h s.transport.position).2 (by omega)
+      simp [this]
+  · simp [hp]
+
+theorem updatePosition_total (s : StaticSound ℝ) (h : s.InDomain) : ∃ s', s.updatePosition = .ok s' ∧ s'.InDomain := by
+  obtain ⟨hs, hv⟩ := h
+  obtain ⟨s1, h1⟩ := pushFrame_total s hs
+  obtain ⟨fo, rfl⟩ := pushFrame_shape s s1 h1
+  obtain ⟨t', ht, hv'⟩ := stepDir_total s.isPlayingBackwards s.nFrames s.transport hv
+  have hm : moveTransport { s with resampler := s.resampler.pushFrame fo s.transport.position } = .ok t' := by
+    unfold moveTransport
+    have : isPlayingBackwards { s with resampler := s.resampler.pushFrame fo s.transport.position }
+        = s.isPlayingBackwards := rfl
+    rw [this]
+    simp only [numFrames_ok s hs]
+    exact ht
+  unfold updatePosition
+  simp only [h1, hm]
+  split
+  · exact ⟨_, rfl, hs, hv'⟩
+  · exact ⟨_, rfl, hs, hv'⟩
+
+theorem updN_total : ∀ (k : Nat) (s : StaticSound ℝ), s.InDomain → ∃ s', updN k s = .ok s' ∧ s'.InDomain := by
+  intro k
+  induction k with
+  | zero => intro s h; exact ⟨s, rfl, h⟩
+  | succ k ih =>
+    intro s h
+    obtain ⟨s1, h1, hd1⟩ := updatePosition_total s h
+    obtain ⟨s2, h2, hd2⟩ := ih s1 hd1
+    exact ⟨s2, by rw [updN_succ, h1]; exact h2, hd2⟩
+
+/-! ### a freshly built sound -/
+
+/-- settings that leave the source untouched: 0 dB, centre, no fade-in, immediate start, fixed rate `r` -/
+structure NeutralSettings (d : StaticSoundData ℝ) (r : ℝ) : Prop where
+  volume : d.settings.volume = .fixed 0
+  panning : d.settings.panning = .fixed 0
+  rate : d.settings.playbackRate = .fixed r
+  fadeIn : d.settings.fadeInTween = none
+  start : d.settings.startTime = .immediate
+
+theorem init_shape (d : StaticSoundData ℝ) (s0 : StaticSound ℝ) (h : init d = .ok s0) :
+    ∃ n t, numFrames d.frames.size d.slice = .ok n
+      ∧ Transport.new (d.settings.startPosition.intoSamples d.sampleRate)
+          (d.settings.loopRegion.map (fun r => r.toSamples d.sampleRate n)) d.settings.reverse n = .ok t
+      ∧ s0.transport = t ∧ s0.frames = d.frames ∧ s0.slice = d.slice ∧ s0.sampleRate = d.sampleRate
+      ∧ s0.reverse = d.settings.reverse ∧ s0.frac = 0
+      ∧ s0.resampler = Resampler.new t.position
+      ∧ s0.core = SoundCore.new d.settings.startTime d.settings.fadeInTween
+      ∧ s0.volume = Parameter.new d.settings.volume 0
+      ∧ s0.playbackRate = Parameter.new d.settings.playbackRate 1
+      ∧ s0.panning = Parameter.new d.settings.panning 0
+      ∧ s0.sharedPosition = (t.position : ℝ) / (d.sampleRate : ℝ) := by
+  unfold init at h
+  cases hn : numFrames d.frames.size d.slice with
+  | error f => simp [hn] at h
+  | ok n =>
+    simp only [hn] at h
+    cases ht : Transport.new (d.settings.startPosition.intoSamples d.sampleRate)
+        (d.settings.loopRegion.map (fun r => r.toSamples d.sampleRate n)) d.settings.reverse n with
+    | error f => simp [ht] at h
+    | ok t =>
+      simp only [ht] at h
+      injection h with h; subst h
+      refine ⟨n, t, rfl, ht, rfl, rfl, rfl, rfl, rfl, by simp, rfl, rfl, ?_, ?_, ?_, by simp⟩
+      · simp [Psm.identityDb]
+      · simp
+      · simp
+
+theorem init_neutral (d : StaticSoundData ℝ) (r : ℝ) (hn : NeutralSettings d r) (s0 : StaticSound ℝ)
+    (h : init d = .ok s0) :
+    s0.NeutralGain ∧ s0.playbackRate.Rests r ∧ s0.core.startTime = .immediate ∧ s0.frac = 0 ∧ s0.EndInv := by
+  obtain ⟨n, t, _, _, _, _, _, _, _, hfr, hres, hcore, hv, hr, hp, _⟩ := init_shape d s0 h
+  refine ⟨⟨?_, ?_, ?_⟩, ?_, ?_, hfr, ⟨?_, ?_, ?_⟩⟩
+  · rw [hv, hn.volume]; exact Parameter.new_fixed_rests 0 0
+  · rw [hp, hn.panning]; exact Parameter.new_fixed_rests 0 0
+  · rw [hcore, hn.fadeIn]
+    simp only [SoundCore.new, Psm.new, Psm.identityDb, lit_0]
+    exact Parameter.new_fixed_rests 0 0
+  · rw [hr, hn.rate]; exact Parameter.new_fixed_rests r 1
+  · rw [hcore, hn.start]; rfl
+  · rw [hres]; exact new_drained _
+  · rw [hcore]; left; rfl
+  · rw [hcore]; intro hst; simp [SoundCore.new, Psm.new] at hst
+
+theorem new_eq_updN (d : StaticSoundData ℝ) (s0 s : StaticSound ℝ) (h0 : init d = .ok s0) (h : StaticSound.new d = .ok s) :
+    updN 3 s0 = .ok s := by
+  unfold StaticSound.new at h
+  simp only [h0] at h
+  rw [updN_succ]
+  cases ha : s0.updatePosition with
+  | error f => simp [ha] at h
+  | ok a =>
+    simp only [ha] at h ⊢
+    rw [updN_succ]
+    cases hb : a.updatePosition with
+    | error f => simp [hb] at h
+    | ok b =>
+      simp only [hb] at h ⊢
+      rw [updN_succ]
+      cases hc : b.updatePosition with
+      | error f => simp [hc] at h
+      | ok c => simp only [hc] at h ⊢; injection h with h; subst h; rfl
+
 end StaticSound
 end K
